@@ -43,7 +43,7 @@ class P(vlib.Prop):
                   "every path's kind/mode/uid/gid/target and the tar layer — for the two functions alone and for whole builds through build.New/BuildLayer and the CLI — and the validators are run on what the real code produced.")
     level_note = ("trusted: Coq kernel, goextract, Go harness/printer and its tar reader/resolver, harness/synthrepo; modelled not verified: the Go text of accounts.go/paths.go/passwd.go/group.go/build_implementation.go and of the two in-memory "
                   "filesystems, archive/tar, fs.WalkDir, the apk installer (its output is taken as the pipeline model's start tree); correspondence is differential testing, not proof; "
-                  "not proved: empty-file when the path is the name of a symbolic link (openFile and getNode follow a final link by different rules), base-image builds (accounts step skipped; API only, the YAML loader refuses accounts and paths there)")
+                  "not proved: empty-file when the path is the name of a symbolic link (openFile and getNode follow a final link by different rules), base-image builds are covered by the guard of the accounts step read from buildImage and c13_base_image_accounts_skipped only (no generated base-image scenario)")
     design_ref = "DESIGN.md 7 C13"
     modelled_not_verified = ("mutateAccounts, userToUserEntry, mutatePaths and the five mutators, UserEntry/GroupEntry Parse/Write, the memfs/tarfs operations they call and the order of buildImage's steps are "
                              "modelled by hand (Model/C13Fs.v, Model/Accounts.v, Model/PathMut.v, Model/C13Build.v); default shell/home/modes, the homeless marker, the two Fprintf formats, field "
